@@ -17,13 +17,14 @@ import (
 )
 
 type Term struct {
-	Op   string
-	Aux  string
-	Args []*Term
-	Fn   *ssa.Function // for "fn" and "closure"
-	Typ  types.Type
-	Src  ssa.Value // provenance, informational
-	key  string
+	Op    string
+	Aux   string
+	Args  []*Term
+	Fn    *ssa.Function // for "fn" and "closure"
+	Typ   types.Type
+	Src   ssa.Value     // provenance, informational
+	Owner *ssa.Function // alloc: the function whose frame owns the cell
+	key   string
 }
 
 func (t *Term) Key() string {
